@@ -10,6 +10,7 @@ import (
 	"os"
 	"reflect"
 	"sort"
+	"strings"
 	"testing"
 	"testing/synctest"
 	"time"
@@ -477,9 +478,185 @@ func c15Concurrent(t *testing.T, st *vstat.Stats) {
 	}
 }
 
+// ---- interrupted retirement ---------------------------------------------------------------------------
+//
+// "after which the operation is no longer pending and cannot be answered again" must also hold when the node process
+// dies inside the handler that posts and retires: once the retirement is on disk, a restarted node neither offers the
+// operation nor accepts its result again. (Before that point the operation is simply still pending; a second post
+// after a death between posting and retiring is the unavoidable at-least-once case and is not asserted against.)
+
+type c15Crash struct {
+	Trace  string `json:"trace"`
+	N      int    `json:"n"`
+	T      int    `json:"t"`
+	Op     int    `json:"op"`     // index among the recorded operations that have a result
+	Effect int    `json:"effect"` // the handler dies before its Effect-th durable effect (state write or board send)
+}
+
+// c15Interrupted returns done=true when the handler finished before reaching the crash point (no such effect).
+func c15Interrupted(t *testing.T, st *vstat.Stats, p c15Crash) (v *viol, done bool) {
+	tr, err := getTrace(t, p.Trace, p.N, p.T)
+	if err != nil {
+		return violf("harness", "trace: %v", err), true
+	}
+	var recs []opRecord
+	for _, r := range tr.Ops {
+		if r.ResultFile != nil {
+			recs = append(recs, r)
+		}
+	}
+	if len(recs) == 0 {
+		return violf("harness", "trace has no answered operations"), true
+	}
+	rec := recs[p.Op%len(recs)]
+	synctest.Test(t, func(t *testing.T) {
+		nd, dir, err := openSnapshot(tr, rec.SnapDir)
+		defer os.RemoveAll(dir)
+		if err != nil {
+			v = violf("harness", "open snapshot: %v", err)
+			return
+		}
+		cur := nd
+		defer func() { cur.Close(); world.Drain() }()
+		nd.View.SetWatermark(1 << 30)
+		count := 0
+		site := ""
+		hook := func(op, key, phase string) {
+			if phase != "before" {
+				return
+			}
+			switch op {
+			case "set", "delete", "saveoffset":
+			default:
+				return
+			}
+			if count == p.Effect {
+				site = op + " " + strings.TrimPrefix(key, world.Topic+"_")
+				count++
+				panic(crashSentinel{site})
+			}
+			count++
+		}
+		nd.State.SetHook(hook)
+		nd.View.Hook = func(op string) {
+			if op == "send" {
+				hook("set", "board:send", "before")
+			}
+		}
+		_, panicked, pv := nd.SafeCall("POST", "/handleProcessedOperationJSON", rec.ResultFile)
+		if !panicked {
+			done = true
+			return
+		}
+		if _, ok := pv.(crashSentinel); !ok {
+			v = violf("harness", "handler panicked on its own: %v", pv)
+			return
+		}
+		boardLen := func(n *world.Node) int { msgs, _ := n.View.GetMessages(0); return len(msgs) }
+		posted0 := boardLen(nd)
+		view, kp, name, sdir := nd.View, nd.KeyPair, nd.Name, nd.Dir
+		view.Hook = nil
+		nd.Kill()
+		world.Drain()
+		nd2, err := world.OpenNode(name, sdir, kp, view, false)
+		if err != nil {
+			v = violf("harness", "restart: %v", err)
+			return
+		}
+		cur = nd2
+		tomb := containsStr(retiredIDs(nd2), rec.OpID)
+		ids, _, err := pendingIDs(nd2)
+		if err != nil {
+			v = violf("pending-list-broken", "after the death before %q the restarted node cannot list its operations: %v", site, err)
+			return
+		}
+		pending := containsStr(ids, rec.OpID)
+		desc := fmt.Sprintf("%s n=%d t=%d, operation %s: node died before %q (effect %d), %d message(s) were posted", p.Trace, p.N, p.T, rec.Type, site, p.Effect, posted0)
+		if tomb && pending {
+			v = violf("retired-operation-pending-again", "%s; its retirement is on disk, yet the restarted node offers it as pending", desc)
+			return
+		}
+		serr := nd2.SubmitResult(rec.ResultFile)
+		posted1 := boardLen(nd2)
+		if tomb && (serr == nil || posted1 != posted0) {
+			v = violf("retired-operation-answered-again", "%s; its retirement is on disk, yet the restarted node accepted the result again (err=%v) and the board grew from %d to %d", desc, serr, posted0, posted1)
+			return
+		}
+		if !tomb {
+			// not retired yet: the operator's resubmission goes through once, after which it is over for good
+			if serr != nil {
+				st.Class("interrupted:resubmission-refused-before-retirement")
+			} else {
+				ids, _, _ := pendingIDs(nd2)
+				serr2 := nd2.SubmitResult(rec.ResultFile)
+				if containsStr(ids, rec.OpID) || serr2 == nil || boardLen(nd2) != posted1 {
+					v = violf("answered-again-after-resubmission", "%s; the resubmitted result was accepted, but afterwards the operation is still pending or was accepted once more (err=%v)", desc, serr2)
+					return
+				}
+			}
+		}
+		st.Class("interrupted-before:" + strings.Fields(site)[len(strings.Fields(site))-1])
+		if tomb {
+			st.Class("interrupted:retirement-on-disk")
+		}
+		st.NonTrivial(fmt.Sprintf("%s/%d/%d/%d/%d", p.Trace, p.N, p.T, p.Op%len(recs), p.Effect))
+		st.SampleEvery(10, map[string]any{"trace": p.Trace, "n": p.N, "t": p.T, "operation": string(rec.Type), "died_before": site, "posted_before_death": posted0,
+			"retirement_on_disk": tomb, "pending_after_restart": pending, "resubmission": fmt.Sprint(serr)})
+	})
+	return v, done
+}
+
 func TestC15(t *testing.T) {
 	st := vstat.New("C15")
 	defer finish(t, st)
+	t.Run("interrupted-retire", func(t *testing.T) {
+		if replaying() {
+			var p c15Crash
+			if replayFor(t, "interrupted-retire", &p) {
+				st.Eval()
+				v, _ := c15Interrupted(t, st, p)
+				report(t, st, "interrupted-retire", v, p)
+			}
+			return
+		}
+		type cfg struct {
+			trace string
+			n, t  int
+		}
+		cfgs := []cfg{{"honest", 2, 2}, {"twobatches", 3, 2}}
+		if thorough() {
+			cfgs = append(cfgs, cfg{"honest", 3, 2}, cfg{"honest", 4, 3}, cfg{"twobatches", 2, 2}, cfg{"twobatches", 4, 3})
+		}
+		si, sn := shard()
+		job := 0
+		for _, c := range cfgs {
+			tr, err := getTrace(t, c.trace, c.n, c.t)
+			if err != nil {
+				t.Fatalf("trace: %v", err)
+			}
+			nrec := 0
+			for _, r := range tr.Ops {
+				if r.ResultFile != nil {
+					nrec++
+				}
+			}
+			for op := 0; op < nrec; op++ {
+				job++
+				if job%sn != si {
+					continue
+				}
+				for eff := 0; eff < 40; eff++ {
+					p := c15Crash{Trace: c.trace, N: c.n, T: c.t, Op: op, Effect: eff}
+					st.Eval()
+					v, done := c15Interrupted(t, st, p)
+					if done {
+						break
+					}
+					report(t, st, "interrupted-retire", v, p)
+				}
+			}
+		}
+	})
 	t.Run("concurrent-duplicate", func(t *testing.T) {
 		if replaying() {
 			var sc c14Schedule
